@@ -4,6 +4,7 @@ mod util;
 mod encop;
 mod decop;
 mod floatop;
+mod dextra;
 mod sinkop;
 mod dispop;
 mod intconv;
@@ -81,6 +82,7 @@ fn dispatch(w: &[&str]) -> String {
         "display" => dispop::run(&w[1..]),
         "displayat" => dispop::run_at(&w[1..]),
         "aiter" => decop::run_aiter(&w[1..]),
+        "dextra" => dextra::run(&w[1..]),
         "intconv" => intconv::run(&w[1..]),
         "seq" => decop::run_seq(&w[1..]),
         "size" => decop::run_size(&w[1..]),
